@@ -5,6 +5,7 @@ CONSTANTS
   MaxCommits = 2
   Crashes = TRUE
   WriteFailures = TRUE
+  Uncache = "walk"
   Dedup = FALSE
   Order = "pre"
 INVARIANTS TypeOK Closed DurableKept NothingLost
